@@ -1,4 +1,4 @@
-(* GENERATED from the text of src/munged/job.c (job_accept) by tools/facts/job.py - do not edit *)
+(* GENERATED from the text of src/munged/job.c (job_accept) and src/munged/munged.c (sig_handler, handle_signals) by tools/facts/job.py - do not edit *)
 From Coq Require Import List ZArith.
 From MV Require Import JobModel.
 Import ListNotations.
@@ -10,3 +10,6 @@ Definition src_job : prog := mkprog
   (CNot (CTerm))
   (seq [SIf (CReconf) (seq [SLog PNotice TReconfig; SClearReconf; SGids]) (seq []); SAccept; SIf (CSdNeg) (seq [SIf (CErrnoIn [ECONNABORTED; EINTR]) (seq [SContinue]) (seq [SIf (CErrnoIn [EMFILE; ENFILE; ENOBUFS; ENOMEM]) (seq [SSaveErrno; STime; SIf (CTimeFailed) (seq [SFatal FTime]) (seq []); SIf (COr (CTimeAfter 60) (CErrnoChanged)) (seq [SLog PInfo TAcceptFail; SSetLastErrno; SSetLastTime]) (seq []); SWait; SContinue]) (seq [SFatal FAccept])])]) (seq []); SIf (CNonblockFails) (seq [SClose; SLog PWarning TNonblock]) (seq [SIf (CCreateFails) (seq [SClose; SLog PWarning TCreate]) (seq [SIf (CBindFails) (seq [SDestroy; SLog PWarning TBind]) (seq [SIf (CQueueFails) (seq [SDestroy; SLog PWarning TQueue]) (seq [])])])])])
   (seq [SLog PNotice TExiting; SFini true; SReturn]).
+(* munged.c: sig_handler evaluated for each signal; the signals handle_signals installs it for (sa_flags = 0) *)
+Definition src_handler (s : sig) : sigflag := match s with SIGHUP => FReconf | SIGINT => FTerm | SIGTERM => FTerm end.
+Definition src_installed : list sig := [SIGHUP; SIGINT; SIGTERM].
